@@ -1092,7 +1092,7 @@ class Unit:
             "dimension": {"__measured__": "Dimension", **self.dimension.__json__()},
             "prefix": (
                 {"__measured__": "Prefix", **prefix.__json__()}
-                if prefix.quantify() != 1
+                if prefix is not IdentityPrefix
                 else None
             ),
             # spelled out as plain JSON values: not every serializer (pydantic's, for
